@@ -52,6 +52,19 @@ Theorem C19_macros_no_caller_code_in_unsafe :
 Proof. exact unsafe_metavars_lifted. Qed.
 Print Assumptions C19_macros_no_caller_code_in_unsafe.
 
+(** [unsize!] type-checks its coercion between RAW pointers (where rustc allows only unsizing, which keeps
+    the address) -- never between references (where deref coercion would also apply and the result
+    would point to something else than the original allocation): every [__coerce_unchecked] of the
+    crate (the trait method and its impls for exactly [Gc] and [GcWeak]) is [unsafe] and takes a
+    [FnOnce( *const _ ) -> *const _], and the macro's single rule is the one annotated with raw pointer
+    types. *)
+Theorem C19_unsize_coerces_raw_pointers :
+  (forall f, In f pub_fns -> fs_name f = "__coerce_unchecked" -> coerce_fn_ok f = true)
+  /\ map fs_owner (coerce_fns pub_fns) = ["__CoercePtrInternal"; "Gc"; "GcWeak"]
+  /\ unsize_macro_ok unsize_macro_rules unsize_macro_matcher unsize_macro_text = true.
+Proof. exact (conj coerce_fns_lifted (conj (proj2 coerce_fns_check) unsize_macro_check)). Qed.
+Print Assumptions C19_unsize_coerces_raw_pointers.
+
 (** ** Non-vacuity *)
 Example C19_sigs_nonvacuous :
   forallb (fun on => existsb (fun f => String.eqb (fs_owner f) (fst on) && String.eqb (fs_name f) (snd on)) relevant_fns)
@@ -80,3 +93,7 @@ Proof. exact macros_present. Qed.
 
 Example C19_macros_discriminates : metavar_harmless (("unsize#0", "gc"), "expr") = false.
 Proof. exact unsize_expr_in_unsafe_fails. Qed.
+
+Example C19_unsize_discriminates :
+  raw_ptr_closure (BFn [] "FnOnce" [TRef LElided false (TParam "T")] (TRef LElided false (TParam "U"))) = false.
+Proof. exact ref_closure_rejected. Qed.
